@@ -166,6 +166,8 @@ class Element(UnicodeMixin):
 
         """
         root = Element(self.qname(), parent, self.namespace())
+        if self.text is not None:
+            root.setText(self.text)
         for a in self.attributes:
             root.append(a.clone(self))
         for c in self.children:
